@@ -23,8 +23,10 @@ def rewriter_objs():
         "RNoOp": mt.NoOpRewriter(),
         "RRemoveEmpty": mt.RemoveEmptyContainers(),
         "RConfigDict": mt.RewriteConfigDict(),
-        "(RLargeUnion 2)": mt.RewriteLargeUnion(2),
+        # (the instance with the LARGER limit is built first: a limit that leaked from a later instance into an earlier one
+        #  would make the earlier one collapse unions it must leave alone)
         "(RLargeUnion 5)": mt.RewriteLargeUnion(5),
+        "(RLargeUnion 2)": mt.RewriteLargeUnion(2),
         "RGenerator": mt.RewriteGenerator(),
         "RCommonBase": mt.RewriteMostSpecificCommonBase(),
     }
